@@ -385,6 +385,41 @@ def a4_no_entry_passed_over(prog, ctx):
             ctx.inconclusive("A4", "find_key passes an entry over only when a name differs", lit.node.where, "no store of .key found")
 
 
+def _delivers_index(prog, fname, pi, depth=0):
+    """does function `fname` hand the index of the entry it appended back through its pi-th parameter (a size_t *)?
+    key_file_append: `*p = kf->length++` (or `kf->length - 1` behind the increment) on every way to success;
+    anything else: passes the parameter on to a function that does."""
+    if depth > 3 or not prog.has_fn(fname):
+        return False
+    g = prog.fn(fname)
+    if pi >= len(g.params) or not (g.params[pi].get("ct") or "").endswith("*"):
+        return False
+    pn = g.params[pi]["name"]
+    gcfg = g.cfg
+    blocks = set()
+    for lhs, rhs, st, kind in query.stores(g):
+        if render(lhs) == "*" + pn and rhs is not None:
+            r0 = rhs.strip()
+            while r0.k in ("ImplicitCastExpr", "ParenExpr", "CStyleCastExpr") and r0.children:
+                r0 = r0.children[0].strip()
+            if r0.k == "UnaryOperator" and r0.j.get("op") == "++" and r0.j.get("postfix", True) and render(r0.children[0]).endswith("->length"):
+                blocks.add(gcfg.block_of(st))
+            elif render(r0).endswith("->length - 1") and any(k2 == "++" and render(l2).endswith("->length") and gcfg.node_dominates(s2, st)
+                                                             for l2, r2, s2, k2 in query.stores(g)):
+                blocks.add(gcfg.block_of(st))
+    for c in g.calls():
+        cn = c.j.get("callee")
+        for ai, a in enumerate(c.call_args()):
+            if render(a) == pn and cn != fname and _delivers_index(prog, cn, ai, depth + 1):
+                blocks.add(gcfg.block_of(c))
+    if not blocks:
+        return False
+    if gcfg.entry in blocks:
+        return True
+    succ = {(b, i): s2 for (b, i, s2) in gcfg.edges()}
+    return gcfg.success_path_avoiding(lambda lit, b, i: succ.get((b, i)) in blocks) is None
+
+
 def a5(prog, ctx):
     f = prog.fn("setKeyValue")
     ctx.touch(f)
@@ -403,8 +438,12 @@ def a5(prog, ctx):
         ctx.fail("A5", "a new entry is created exactly on a lookup miss", nk[0].where, "new_key() reachable for other lookup results", key="newkey-cond")
     idx = [st for lhs, rhs, st, kind in query.stores(f) if render(lhs) == "num" and rhs is not None]
     good = [st for st in idx if render(st.children[1]) == "kf->length - 1" and cfg.must_pass(nk[0], st)]
+    out_ok = [ai for ai, a in enumerate(nk[0].call_args()) if render(a) == "&num" and _delivers_index(prog, nk[0].j.get("callee"), ai)]
     if good:
         ctx.ok("A5", "the value is stored into the appended entry", good[0].where, "num = kf->length - 1 after new_key()")
+    elif out_ok and not [st for st in idx if cfg.block_of(st) in cfg.reachable(cfg.block_of(nk[0])) and cfg.block_of(st) != cfg.block_of(nk[0])]:
+        ctx.ok("A5", "the value is stored into the appended entry", nk[0].where,
+               "%s() hands the index of the entry it appended back through &num (`*p = kf->length++` in key_file_append)" % nk[0].j.get("callee"))
     else:
         ctx.fail("A5", "the value is stored into the appended entry", nk[0].where, "after new_key() the index is %s" % [render(s.children[1]) for s in idx],
                  key="newkey-index")
@@ -461,6 +500,11 @@ def a5(prog, ctx):
             ia = cs[0].call_args()[1].strip()
             if render(ia) == want_idx:
                 idx_ok = True
+            elif ia.k == "UnaryOperator" and ia.j.get("op") == "*":
+                # the index the append handed back through an out-parameter that this function passes on
+                pn9 = render(ia.children[0])
+                ka = n.calls("key_file_append")[0]
+                idx_ok = any(render(a9) == pn9 and _delivers_index(prog, "key_file_append", ai9) for ai9, a9 in enumerate(ka.call_args()))
             elif ia.k == "DeclRefExpr" and ia.j.get("dk") == "local":
                 # through a local that was set to the last index after the append
                 from sa.dataflow import ReachingDefs
@@ -491,6 +535,20 @@ def a6(prog, ctx, defs):
         ok, cut = cfg.all_paths_cut(cfg.block_of(st), lambda lit, b, i: lit is not None and lit.kind == "eq" and lit.pol and "ECONF_NOKEY" in lit.atom)
         # and nothing else decides: the edge's target is the store's block
         direct = any(cfg.blocks[b].succs[i] == cfg.block_of(st) for (b, i) in cut)
+        if not direct and ok and cut:
+            # between the key-absent test and the store only tests of the ARGUMENTS may stand (`if (result == NULL) return ..;`)
+            pn6 = [q["name"] for q in f.params]
+            sb6 = cfg.block_of(st)
+            inter = []
+            for (b, i) in cut:
+                s6 = cfg.blocks[b].succs[i]
+                region = cfg.reachable(s6, avoid_blocks=[sb6])
+                for (b2, i2, s2) in cfg.edges():
+                    if b2 in region and sb6 in (cfg.reachable(s2) | {s2}):
+                        l6 = cfg.edge_lit(b2, i2)
+                        if l6 is not None:
+                            inter.append(l6)
+            direct = bool(inter) and all(l6.kind == "truth" and l6.atom in pn6 for l6 in inter)
         others = [x for x in cut if False]
         if ok and cut and direct and "def" in src:
             ctx.ok("A6", "%s returns the default exactly when the key is absent" % n, st.where, "*result = %s behind error == ECONF_NOKEY only" % src)
@@ -631,6 +689,20 @@ def a8(prog, ctx, getters, setters, defs):
         ref = shapes[names[0]]
         odd = [n for n in names if shapes[n].replace("&value", "value") != ref.replace("&value", "value")]
         from_macro = [n for n in names if prog.fn(n).from_macro == macro]
+        if odd and all(prog.fn(n).from_macro is None for n in odd) and any(prog.fn(n).from_macro is not None for n in names if n not in odd):
+            # a member written out by hand (the string variant has to allocate its copy of the default): it must agree with the
+            # generated ones in what it checks about its arguments and in which accessor it delegates to
+            def core(txt, fn9):
+                pn9 = set(q["name"] for q in prog.fn(fn9).params)
+                keep = []
+                for t in txt.split("\n"):
+                    if t.startswith("if ") and set(re.findall(r"[A-Za-z_]\w*", t[3:])) - {"NULL"} <= pn9:
+                        keep.append(t)
+                    elif t.startswith("call ") and "TValue" in t:
+                        keep.append(t)
+                return sorted(set(keep))
+            refn = [n for n in names if n not in odd][0]
+            odd = [n for n in odd if not set(core(shapes[refn], refn)) <= set(core(shapes[n], n))]      # it may check more, not less
         if not odd:
             ctx.ok("A8", "the 8 %s agree" % fam, prog.fn(names[0]).where, "identical control structure modulo the type slot (%d generated by %s)" % (len(from_macro), macro))
         else:
